@@ -1,20 +1,24 @@
 # C10 -- no client input can crash a handler or wedge the node
 import itertools, random, re
 from nodegen import *
+import netfam, clustergen
 
 ID = "C10"
 DRIVER = "node"
-MODEL_FILES = ["Model/Base.v", "Model/Parse.v", "Model/Node.v"]
-THEOREMS = ["C10_parse_total", "C10_init_inv", "C10_step_inv", "C10_step_no_panic", "C10_run_no_panic", "C10_probe_served", "C10_http_worker_survives", "C10_admin_inv_needed"]
+MODEL_FILES = ["Model/Base.v", "Model/Parse.v", "Model/Node.v", "Model/Net.v", "Model/Cluster.v"]
+THEOREMS = ["C10_parse_total", "C10_init_inv", "C10_step_inv", "C10_step_no_panic", "C10_run_no_panic", "C10_probe_served", "C10_http_worker_survives", "C10_admin_inv_needed", "C10_tcp_line_serving", "C10_tcp_line_invalid", "C10_ws_frame_serving", "C10_ws_frame_invalid", "C10_http_bytes_worker_survives", "C10_net_run_from_init", "C10_net_run_then_step", "C10_repl_one_survives", "C10_poll_repl_survives"]
 STRENGTH = {t: "proof-unbounded" for t in THEOREMS}
 RULE = ("every command word known to the parser (plus unknown ones) x argument lists of 0-5 tokens drawn from {empty, spaces, "
         "non-numeric, i32/u64/u128 boundary numbers, $$ keys, ';' and newline, a 10 kB token, non-ASCII} plus seeded random byte "
         "strings, sent from an unauthenticated, a database-token and an administrator session (debug build: overflow checks on); "
         "after every such line a second client runs a probe set/get that must be served normally; the quick tier sweeps every "
         "command word with every single-token argument; distinct = distinct canonical trace; non-trivial = the fuzz line was "
-        "accepted by the parser (not 'unknown command')")
-ASSUMPTIONS = ["lines are valid UTF-8 (process_request takes &str; invalid UTF-8 is rejected by the transports before it)",
-               "handlers are driven through process_request; transport threads (TCP/HTTP/WS loops) are not exercised by this check",
+        "accepted by the parser (not 'unknown command'); transport family n*: the same lines, plus byte strings that are not UTF-8, "
+        "sent over the real TCP listener (one line), the real WebSocket listener (text and binary frames) and the real HTTP "
+        "listener (bodies) on loopback sockets, sessions of both kinds mixed, a probe client after every line: no connection, "
+        "listener or worker may die; cluster family c*: a primary with its real replication thread and a secondary behind it, "
+        "fuzzed commands and database names with line feeds / separators, settle after each: the replication thread must survive")
+ASSUMPTIONS = [               "WebSocket text frames are UTF-8 (the ws library refuses others before the handler runs); binary frames carry any bytes",
                "'join <name>' twice makes the supervisor thread panic (administrator only): recorded as out of scope of the handler model"]
 TRUSTED = ["panics are observed with catch_unwind in a debug build (overflow checks on); lock poisoning would show as a panic of the probe"]
 
@@ -25,7 +29,88 @@ WORDS = ["ack", "arbiter", "auth", "cluster-state", "create-db", "create-user", 
 TOKENS = ["", " ", "x", "k", "d1", "tok1", "-1", "0", "1", "-2", "2147483647", "-2147483648", "2147483648", "4294967296",
           "18446744073709551615", "18446744073709551616", "340282366920938463463374607431768211455", "340282366920938463463374607431768211456",
           "+5", "-0", "$$k", "$$token", "$connections", "$conflicts", ";", "\n", "a;b", "é", "日本", "*", "|", "a|b", "true", "false",
-          "candidate", "win", "active", "force-election", "pending-ops", "list-dbs", "rw", "r a*", "L" * 10000, "nun", "pwd", "n2:3014", "n0:3014"]
+          "nodb|d1", "d1|nodb", "d1|dp", "candidate", "win", "active", "force-election", "pending-ops", "list-dbs", "rw", "r a*", "L" * 10000, "nun", "pwd", "n2:3014", "n0:3014"]
+
+
+def driver_of(case):
+    return {"n": "net", "c": "cluster"}.get(case[0][0], "node")
+
+
+def net_cases(tier, rng, dist, lines):
+    """the same fuzz lines through the real TCP / WebSocket / HTTP listeners, plus byte strings that are
+    not UTF-8 (a raw TCP line, a binary WebSocket frame, an HTTP body); session 3 is the probe client"""
+    out = []
+    n = {"quick": 500, "thorough": 8000, "search": 300}[tier]
+    for i in range(n):
+        kinds = rng.choice(["tttt", "wwww", "twtw", "wtwt", "ttww", "wwtt", "twwt"])
+        setup = [["conn"], ["conn"], ["conn"], ["conn"], C(0, "auth nun pwd"), C(0, "create-db d1 tok1"), C(0, "create-db dp tokp"),
+                 C(0, "create-db d3 tok3 arbiter"), C(0, "use-db d1 tok1"), C(2, "use-db d1 tok1"), C(3, "use-db dp tokp"), C(2, "set k 5"), C(2, "set n 2147483647")]
+        ops = netfam.to_net(setup, kinds)
+        for j in range(3):
+            sid = rng.choice([0, 1, 2])
+            r = rng.random()
+            if r < 0.2:
+                data = bytes(rng.choice([0xff, 0xfe, 0xc0, 0x80, 0xe2, 0x28, 0x41, 0x20, 0x3b, 0xf0, 0x9f]) for _ in range(rng.randint(1, 12)))
+                if kinds[sid] == "t":
+                    data = data.replace(b"\n", b" ")
+                ops.append(netfam.raw(sid, data)); dist["net_raw"] = dist.get("net_raw", 0) + 1
+            elif r < 0.3:
+                body = rng.choice([";".join(rng.choice(lines) for _ in range(rng.randint(1, 3))).encode("utf-8", "replace")[:3000],
+                                   bytes(rng.choice([0xff, 0x41, 0x3b, 0xc3, 0x28]) for _ in range(rng.randint(1, 8)))])
+                ops.append(["http", "x" + body.hex()]); dist["net_http"] = dist.get("net_http", 0) + 1
+            else:
+                ln = rng.choice(lines)
+                if kinds[sid] == "t":
+                    ln = ln.replace("\n", " ")
+                    b = ln.encode("utf-8")
+                    if len(b) >= 2 and rng.random() < 0.3:
+                        # one line in two TCP segments with a pause in between (cut anywhere, inside a character too)
+                        cut = rng.randint(1, len(b) - 1)
+                        ops.append(["split", str(sid), "x" + b[:cut].hex(), "x" + b[cut:].hex()]); dist["net_split"] = dist.get("net_split", 0) + 1
+                    else:
+                        ops.append(C(sid, ln))
+                else:
+                    ops.append(C(sid, ln))
+                dist["net_lines"] = dist.get("net_lines", 0) + 1
+            ops.append(C(3, "set p%d v%d" % (j, j)))
+            ops.append(C(3, "get p%d" % j))
+        out.append(("n%d" % i, ["P"], ops))
+    dist["net"] = n
+    return out
+
+
+CL_BLOCK = ("election", "join", "leave", "replicate-join", "replicate-leave", "set-primary", "set-secoundary", "replicate-since")
+WEIRD_NAMES = ["a\nb", "a b", "a|b", "a;b", "\u00e9", "$admin", "d1\n", "\nd1", "x\n", "L" * 300, "a,b", "*", "$$x", "-1", "a\rb", "a\tb"]
+
+
+def cluster_cases(tier, rng, dist, lines):
+    """a primary with its real replication thread (and a secondary behind it): whatever a client makes the node
+    queue for replication, the thread must survive it"""
+    out = []
+    n = {"quick": 300, "thorough": 5000, "search": 200}[tier]
+    CC = clustergen.CC
+    base = [["conn", "n1"], ["conn", "n1"], ["conn", "n1"], ["conn", "n2"], CC("n1", 0, "auth nun pwd"), CC("n2", 0, "auth nun pwd"),
+            ["addsec", "n1", "n2"], ["settle"], CC("n1", 0, "create-db d1 tok1"), ["settle"], CC("n1", 0, "use-db d1 tok1"), CC("n1", 1, "use-db d1 tok1"), ["settle"]]
+    hdr = ["n1/P/100", "n2/U/200"]
+    k = 0
+    for name in WEIRD_NAMES:
+        for tail in (["snapshot false %s", "snapshot true %s"], ["use-db %s tok", "set k v", "remove k", "snapshot false %s"], ["replicate-snapshot %s", "replicate %s k -1 v"],
+                     ["snapshot false d1|%s", "snapshot false %s|d1"]):
+            ops = list(base) + [CC("n1", 0, "create-db %s tok" % name), ["settle"]]
+            for t in tail:
+                ops += [CC("n1", 0, t % name if "%s" in t else t), ["settle"]]
+            ops += [CC("n1", 1, "set probe 1"), ["settle"], CC("n1", 1, "get probe")]
+            out.append(("c%d" % k, hdr, ops)); k += 1
+    dist["cluster_names"] = k
+    cand = [l for l in lines if l.split(" ")[0] not in CL_BLOCK and len(l) < 2000]
+    for i in range(n):
+        ops = list(base)
+        for j in range(3):
+            ops += [CC("n1", rng.choice([0, 0, 1, 2]), rng.choice(cand)), ["settle"]]
+        ops += [CC("n1", 1, "set probe 1"), ["settle"], CC("n1", 1, "get probe")]
+        out.append(("c%d" % k, hdr, ops)); k += 1
+    dist["cluster"] = k
+    return out
 
 
 def gen_cases(tier, seed):
@@ -49,6 +134,8 @@ def gen_cases(tier, seed):
         else:
             lines.append("".join(chr(rng.choice([32, 59, 10, 36, 45, 48, 49, 57, 97, 112, 114, 115, 116, 0x7f, 0xe9, 9, 13])) for _ in range(rng.randint(1, 30))))
     dist["random"] = n
+    cases += net_cases(tier, rng, dist, lines)
+    cases += cluster_cases(tier, rng, dist, lines)
     per = 4 if tier != "thorough" else 4
     cid = 0
     for i in range(0, len(lines), per):
@@ -131,7 +218,50 @@ def gen_cases(tier, seed):
     return cases, dist
 
 
+def net_oracle(case, io, mo):
+    obs = split_obs(io)
+    fails = netfam.transport_failures(case, obs)
+    if len(obs) < len(case[2]):
+        fails.append(("driver-died", "the driver process died at step %d" % len(obs)))
+    for i, op in enumerate(case[2]):
+        if i >= len(obs) or i < 13:
+            continue
+        reply, inb = obs[i][0], obs[i][1]
+        if op[0] == "cmd" and op[1] == "3":
+            line = line_of(op)
+            if line.startswith("set p") and reply != "Ok":
+                fails.append(("probe-refused", "step %d: probe '%s' answered %s" % (i, line, reply)))
+            if line.startswith("get p"):
+                j = line[5:]
+                if "value v%s\n" % j not in netfam.items_of(inb, 3):
+                    fails.append(("probe-wrong", "step %d: probe '%s' received %s" % (i, line, netfam.items_of(inb, 3))))
+        elif op[0] == "cmd" and reply not in ("Ok", "NoReply") and not reply.startswith("Error "):
+            fails.append(("no-answer", "step %d: %r answered %s" % (i, (line_of(op) or "")[:80], reply)))
+    return fails
+
+
+def cluster_oracle(case, io, mo):
+    fails = []
+    obs = clustergen.split_obs(io)
+    if len(obs) < len(case[2]):
+        fails.append(("driver-died", "the driver process died at step %d" % len(obs)))
+    for i, o in enumerate(obs):
+        if o[0] == "PANIC":
+            fails.append(("panic", "step %d panicked" % i))
+        if " DEAD " in o[3]:
+            prev = [clustergen.line_of(x) for x in case[2][:i + 1] if x[0] == "cmd"][-2:]
+            fails.append(("service-thread-died", "step %d: a replication service thread of the node is dead after %r" % (i, prev)))
+            break
+    if obs and len(obs) == len(case[2]) and not obs[-1][0].startswith("Value probe 1"):
+        fails.append(("probe-wrong", "the last probe answered %s" % obs[-1][0]))
+    return fails
+
+
 def oracle(case, io, mo):
+    if case[0].startswith("n"):
+        return net_oracle(case, io, mo)
+    if case[0].startswith("c"):
+        return cluster_oracle(case, io, mo)
     fails = []
     obs = split_obs(io)
     for i, op in enumerate(case[2]):
@@ -154,5 +284,7 @@ def oracle(case, io, mo):
 
 
 def nontrivial(case, io):
+    if case[0].startswith("c"):
+        return any(o[0] == "Ok" for o in clustergen.split_obs(io)[13:-3])
     obs = split_obs(io)
     return any(not o[0].startswith("Error unknown{20}command") and not o[0].startswith("Error empty") for o in obs[13::3])
